@@ -20,8 +20,11 @@ use crate::Args;
 
 use super::c05;
 
+#[path = "c06_e2e.rs"]
+mod e2e;
+
 use rs_matter::acl::{Accessor, AccessorSubjects};
-use rs_matter::dm::{Access, Attribute, Cluster, Command, DeviceType, Endpoint, Node, Quality};
+use rs_matter::dm::{Access, Attribute, Cluster, Command, DeviceType, Endpoint, Metadata, Node, Quality};
 use rs_matter::im::{expand_invoke, expand_read, expand_write, IMStatusCode, InvReq, ReadReq, ReportDataReq, WriteReq};
 use rs_matter::tlv::TLVElement;
 use rs_matter::Matter;
@@ -36,8 +39,8 @@ fn with_leaf_attr(a: &Attribute, _rev: u16, fm: u32) -> bool {
 fn with_leaf_cmd(c: &Command, _rev: u16, fm: u32) -> bool {
     fm & (1u32 << (c.id % 32)) != 0
 }
-fn with_no_event(_e: &rs_matter::dm::Event, _rev: u16, _fm: u32) -> bool {
-    false
+fn with_leaf_event(e: &rs_matter::dm::Event, _rev: u16, fm: u32) -> bool {
+    fm & (1u32 << (e.id % 32)) != 0
 }
 
 fn parse_node(spec: &str) -> Option<&'static Node<'static>> {
@@ -76,7 +79,19 @@ fn parse_node(spec: &str) -> Option<&'static Node<'static>> {
                             cv.push(Command::new(aid, None, Access::from_bits_retain(acc)));
                         }
                     }
-                    clusters.push(Cluster::new(cid, 1, fm, leak(av), leak(cv), &[], with_leaf_attr, with_leaf_cmd, with_no_event));
+                    // optional 5th field: events `id.access,..`
+                    let mut ev: Vec<rs_matter::dm::Event> = Vec::new();
+                    if let Some(evs) = ci.next() {
+                        if evs != "-" {
+                            for a in evs.split(',') {
+                                let mut ai = a.split('.');
+                                let eid: u32 = ai.next()?.parse().ok()?;
+                                let acc: u16 = ai.next()?.parse().ok()?;
+                                ev.push(rs_matter::dm::Event::new(eid, Access::from_bits_retain(acc)));
+                            }
+                        }
+                    }
+                    clusters.push(Cluster::new(cid, 1, fm, leak(av), leak(cv), leak(ev), with_leaf_attr, with_leaf_cmd, with_leaf_event));
                 }
             }
             eps.push(Endpoint::new(id, leak(dts), leak(clusters)));
@@ -146,6 +161,115 @@ fn inv_req(paths: &[P], timed: bool) -> Vec<u8> {
     b
 }
 
+/// ReadRequest carrying event paths only
+fn event_read_req(paths: &[P]) -> Vec<u8> {
+    let mut b = vec![0x15, 0x36, 0x01];
+    for p in paths {
+        b.push(0x17);
+        put_path(&mut b, [1, 2, 3], p);
+        b.push(0x18);
+    }
+    b.push(0x18);
+    b.extend_from_slice(&[0x29, 0x03]); // fabric filtered = true
+    b.extend_from_slice(&[0x24, 0xff, 13]);
+    b.push(0x18);
+    b
+}
+
+/// InvokeRequest with a CommandRef per command (mandatory for more than one command)
+fn inv_req_refs(paths: &[P], timed: bool) -> Vec<u8> {
+    let mut b = vec![0x15, 0x28, 0x00, if timed { 0x29 } else { 0x28 }, 0x01, 0x36, 0x02];
+    for (i, p) in paths.iter().enumerate() {
+        b.push(0x15);
+        b.extend_from_slice(&[0x37, 0x00]);
+        put_path(&mut b, [0, 1, 2], p);
+        b.push(0x18);
+        b.extend_from_slice(&[0x35, 0x01, 0x18]);
+        b.extend_from_slice(&[0x25, 0x02, i as u8, 0x00]);
+        b.push(0x18);
+    }
+    b.push(0x18);
+    b.extend_from_slice(&[0x24, 0xff, 13]);
+    b.push(0x18);
+    b
+}
+
+fn parse_paths(s: &str) -> Vec<P> {
+    s.split(';')
+        .filter(|s| !s.is_empty() && *s != "-")
+        .map(|p| {
+            let mut it = p.split('/');
+            (
+                c05::opt_num(it.next().unwrap_or("*")),
+                c05::opt_num(it.next().unwrap_or("*")),
+                c05::opt_num(it.next().unwrap_or("*")),
+            )
+        })
+        .collect()
+}
+
+/// e2e <r|w|i|v> <fab> <p|c> <id> <cats|-> <treq: -|T:D> <flag> <paths> <emit: -|ep.cl.ev.fab,..>
+///   => <top> # <effects> # <responses>
+fn run_e2e(matter: &Matter<'_>, env: &e2e::Env, node: &'static Node<'static>, w: &[&str], out: &mut Out) -> String {
+    let kind = w[1];
+    let fab: u8 = w[2].parse().unwrap_or(0);
+    let id: u64 = w[4].parse().unwrap_or(0);
+    let mut cats = [0u32; 3];
+    if w[5] != "-" {
+        for (i, c) in w[5].split(',').take(3).enumerate() {
+            cats[i] = c.parse().unwrap_or(0);
+        }
+    }
+    let sess = if w[3] == "p" { e2e::Sess::Pase { fab } } else { e2e::Sess::Case { fab, node_id: id, cats } };
+    let timed = if w[6] == "-" {
+        None
+    } else {
+        let mut it = w[6].split(':');
+        Some((it.next().and_then(|x| x.parse().ok()).unwrap_or(0u16), it.next().and_then(|x| x.parse().ok()).unwrap_or(0u64)))
+    };
+    let flag = w[7] == "1";
+    let paths = parse_paths(w[8]);
+    let emit: Vec<(u16, u32, u32, u8)> = if w[9] == "-" {
+        Vec::new()
+    } else {
+        w[9].split(',')
+            .filter_map(|t| {
+                let mut it = t.split('.');
+                Some((it.next()?.parse().ok()?, it.next()?.parse().ok()?, it.next()?.parse().ok()?, it.next()?.parse().ok()?))
+            })
+            .collect()
+    };
+    let (opcode, payload) = match kind {
+        "r" => (rs_matter::im::OpCode::ReadRequest, read_req(&paths)),
+        "v" => (rs_matter::im::OpCode::ReadRequest, event_read_req(&paths)),
+        "w" => (rs_matter::im::OpCode::WriteRequest, write_req(&paths, flag)),
+        _ => (rs_matter::im::OpCode::InvokeRequest, inv_req_refs(&paths, flag)),
+    };
+    e2e::SHARED.lock().unwrap().node = Some(node);
+    let req = e2e::Req { sess, timed, opcode, payload, emit };
+    let ans = match std::panic::catch_unwind(std::panic::AssertUnwindSafe(|| e2e::run_request(matter, env, &req))) {
+        Ok(a) => a,
+        Err(_) => e2e::Answer { top: "panic".into(), resp: Vec::new(), effects: Vec::new() },
+    };
+    out.stat(&format!("e2e_{}", kind), 1);
+    out.stat(&format!("e2e_top_{}", ans.top.replace(' ', "_")), 1);
+    out.stat("e2e_effects", ans.effects.len() as u64);
+    for r in &ans.resp {
+        let k = r.split(' ').next().unwrap_or("?");
+        if k == "st" {
+            out.stat(&format!("e2e_{}_status_{}", kind, r.rsplit(' ').next().unwrap_or("?")), 1);
+        } else {
+            out.stat(&format!("e2e_{}_{}", kind, k), 1);
+        }
+    }
+    format!(
+        "{} # {} # {}",
+        ans.top,
+        if ans.effects.is_empty() { "-".to_string() } else { ans.effects.join(",") },
+        if ans.resp.is_empty() { "-".to_string() } else { ans.resp.join(" | ") }
+    )
+}
+
 fn fmt_o<T: ToString>(o: Option<T>) -> String {
     o.map(|x| x.to_string()).unwrap_or_else(|| "*".into())
 }
@@ -156,7 +280,25 @@ fn status_name(s: IMStatusCode) -> String {
 
 const STEP_CAP: usize = 20000;
 
-fn run_x(matter: &Matter<'_>, node: &'static Node<'static>, w: &[&str], out: &mut Out) -> String {
+/// `Metadata` whose node composition is replaced between the expander's `next` calls: the i-th
+/// `access` sees `nodes[min(i, last)]` (`PathExpanderIterator::next` calls `access` once per call).
+struct SwapMeta {
+    nodes: Vec<&'static Node<'static>>,
+    calls: std::cell::Cell<usize>,
+}
+
+impl Metadata for SwapMeta {
+    fn access<F, R>(&self, f: F) -> R
+    where
+        F: FnOnce(&Node<'_>) -> R,
+    {
+        let i = self.calls.get();
+        self.calls.set(i + 1);
+        f(self.nodes[i.min(self.nodes.len() - 1)])
+    }
+}
+
+fn run_x<M: Metadata + Copy>(matter: &Matter<'_>, node: M, w: &[&str], out: &mut Out) -> String {
     let kind = w[1];
     let fab: u8 = w[2].parse().unwrap_or(0);
     let mode = c05::mode_of(w[3]);
@@ -278,7 +420,7 @@ fn run_x(matter: &Matter<'_>, node: &'static Node<'static>, w: &[&str], out: &mu
     }
 }
 
-fn run_case(matter: &Matter<'_>, out: &mut Out, case: &Case) {
+fn run_case(matter: &Matter<'_>, env: &e2e::Env, out: &mut Out, case: &Case) {
     c05::reset(matter);
     out.case(case.id, &case.kind);
     let mut node: &'static Node<'static> = Box::leak(Box::new(Node::new(&[])));
@@ -293,6 +435,36 @@ fn run_case(matter: &Matter<'_>, out: &mut Out, case: &Case) {
                 }
                 None => out.op(op, "badnode"),
             },
+            // sw <same 9 fields as x> <spec0> <spec1> ..: call i of the expander sees node spec_min(i,last)
+            Some("sw") if w.len() >= 11 => {
+                let nodes: Option<Vec<&'static Node<'static>>> = w[10..].iter().map(|s| parse_node(s)).collect();
+                match nodes {
+                    None => out.op(op, "badnode"),
+                    Some(nodes) => {
+                        let meta = SwapMeta { nodes, calls: std::cell::Cell::new(0) };
+                        let o = run_x(matter, &meta, &w[..10], out);
+                        out.stat("swap_requests", 1);
+                        out.stat(&format!("swap_calls_{}", meta.calls.get().min(9)), 1);
+                        if o.contains("ok ") {
+                            kinds.insert("item");
+                        }
+                        if o.contains("Unsupported") || o.contains("NeedsTimed") {
+                            kinds.insert("status");
+                        }
+                        out.op(op, &o);
+                    }
+                }
+            }
+            Some("e2e") if w.len() == 10 => {
+                let o = run_e2e(matter, env, node, &w, out);
+                if o.contains("ok ") || o.contains("ev ") {
+                    kinds.insert("item");
+                }
+                if o.contains("Unsupported") || o.contains("NeedsTimed") {
+                    kinds.insert("status");
+                }
+                out.op(op, &o);
+            }
             Some("x") if w.len() == 10 => {
                 let o = run_x(matter, node, &w, out);
                 if o.contains("ok ") {
@@ -320,8 +492,11 @@ const CLUSTERS: [u32; 4] = [6, 8, 29, 31];
 const DEV_TYPES: [u32; 3] = [22, 256, 257];
 const GROUP_IDS: [u64; 3] = [1, 2, 3];
 
+#[derive(Clone)]
 struct GLeaf { id: u32, access: u16, array: bool }
-struct GCluster { id: u32, fm: u32, attrs: Vec<GLeaf>, cmds: Vec<GLeaf> }
+#[derive(Clone)]
+struct GCluster { id: u32, fm: u32, attrs: Vec<GLeaf>, cmds: Vec<GLeaf>, evs: Vec<GLeaf> }
+#[derive(Clone)]
 struct GEndpoint { id: u16, dts: Vec<u32>, clusters: Vec<GCluster> }
 
 fn attr_access_pool() -> Vec<u16> {
@@ -340,8 +515,12 @@ fn cmd_access_pool() -> Vec<u16> {
 }
 
 fn gen_node(r: &mut Rng, out: &mut Out, wf: bool) -> Vec<GEndpoint> {
+    gen_node_n(r, out, wf, None)
+}
+
+fn gen_node_n(r: &mut Rng, out: &mut Out, wf: bool, force_ne: Option<usize>) -> Vec<GEndpoint> {
     let mut eps: Vec<GEndpoint> = Vec::new();
-    let ne = *r.pick(&[0usize, 1, 2, 2, 3, 3, 4]);
+    let ne = force_ne.unwrap_or_else(|| *r.pick(&[0usize, 1, 2, 2, 3, 3, 4]));
     let mut ids: Vec<u16> = ENDPOINTS.to_vec();
     // choose `ne` ids, sorted
     while ids.len() > ne {
@@ -374,10 +553,14 @@ fn gen_node(r: &mut Rng, out: &mut Out, wf: bool) -> Vec<GEndpoint> {
             // feature map = enabled mask; mostly everything enabled
             let fm: u32 = if r.chance(3, 4) { 0xFFFF_FFFF } else { r.next() as u32 | 1 };
             out.stat("node_clusters", 1);
-            clusters.push(GCluster { id: cid, fm, attrs, cmds });
+            let nev = *r.pick(&[0usize, 0, 1, 2, 3]);
+            let evp = [Access::RV.bits(), Access::RV.bits(), (Access::READ | Access::NEED_OPERATE).bits(), (Access::READ | Access::NEED_MANAGE).bits(), Access::RA.bits()];
+            let mut evs: Vec<GLeaf> = (0..nev as u32).map(|i| GLeaf { id: i, access: if r.chance(1, 10) { r.below(512) as u16 } else { *r.pick(&evp) }, array: false }).collect();
+            if !wf && !evs.is_empty() && r.chance(1, 2) { let a = GLeaf { id: evs[0].id, access: *r.pick(&evp), array: false }; evs.push(a); }
+            clusters.push(GCluster { id: cid, fm, attrs, cmds, evs });
         }
         if !wf && !clusters.is_empty() && r.chance(1, 3) {
-            let c = GCluster { id: clusters[0].id, fm: 0xFFFF_FFFF, attrs: vec![GLeaf { id: 0, access: Access::RV.bits(), array: false }], cmds: vec![] };
+            let c = GCluster { id: clusters[0].id, fm: 0xFFFF_FFFF, attrs: vec![GLeaf { id: 0, access: Access::RV.bits(), array: false }], cmds: vec![], evs: vec![] };
             clusters.push(c);
         }
         eps.push(GEndpoint { id, dts, clusters });
@@ -401,7 +584,8 @@ fn node_spec(eps: &[GEndpoint]) -> String {
                     .map(|c| {
                         let a = if c.attrs.is_empty() { "-".to_string() } else { c.attrs.iter().map(|l| format!("{}.{}.{}", l.id, l.access, l.array as u8)).collect::<Vec<_>>().join(",") };
                         let m = if c.cmds.is_empty() { "-".to_string() } else { c.cmds.iter().map(|l| format!("{}.{}", l.id, l.access)).collect::<Vec<_>>().join(",") };
-                        format!("{}^{}^{}^{}", c.id, c.fm, a, m)
+                        let v = if c.evs.is_empty() { "-".to_string() } else { c.evs.iter().map(|l| format!("{}.{}", l.id, l.access)).collect::<Vec<_>>().join(",") };
+                        format!("{}^{}^{}^{}^{}", c.id, c.fm, a, m, v)
                     })
                     .collect::<Vec<_>>()
                     .join("|")
@@ -412,7 +596,7 @@ fn node_spec(eps: &[GEndpoint]) -> String {
         .join(";")
 }
 
-fn gen_case(r: &mut Rng, out: &mut Out, nx: usize) -> Vec<String> {
+fn gen_case(r: &mut Rng, out: &mut Out, nx: usize, case_id: u64) -> Vec<String> {
     let mut ops: Vec<String> = Vec::new();
     // access control: 1-2 fabrics, a few entries of decreasing generosity
     let nf = r.range(1, 2);
@@ -453,6 +637,11 @@ fn gen_case(r: &mut Rng, out: &mut Out, nx: usize) -> Vec<String> {
                 }
             };
             ops.push(format!("acl {} {} {} {} {}", f, r.pick(&privs), mode, subj, tgt));
+        }
+        if r.chance(1, 4) {
+            // an entry whose subject is a CASE Authenticated Tag (identifier 1, version 2)
+            ops.push(format!("acl {} {} c 18446744060824649730 null", f, r.pick(&[3u8, 7, 15])));
+            out.stat("acl_cat_entry", 1);
         }
         if r.chance(1, 2) {
             let ng = r.range(1, 4);
@@ -543,17 +732,239 @@ fn gen_case(r: &mut Rng, out: &mut Out, nx: usize) -> Vec<String> {
                 }
             }
         }
+        // tags of the requester's NOC: version above / equal / below the entry's, another identifier
+        let cats = if mode == "c" && r.chance(1, 4) { *r.pick(&["65538", "65539", "65537", "131074", "65537,131075"]) } else { "-" };
+        if cats != "-" { out.stat("requester_with_cats", 1); }
         ops.push(format!(
-            "x {} {} {} {} {} - {} {} {}",
+            "x {} {} {} {} {} {} {} {} {}",
             kind,
             fab,
             mode,
             aux,
             id,
+            cats,
             timed,
             if excl.is_empty() { "-".to_string() } else { excl.join(",") },
             paths.join(";")
         ));
+    }
+    // requests answered while the node composition is replaced between the expander's calls
+    if r.chance(1, 2) {
+        let pool_n = *r.pick(&[2usize, 3, 4, 5]);
+        let pool = gen_node_n(r, out, true, Some(pool_n));
+        let nsw = r.range(1, 3);
+        for _ in 0..nsw {
+            let kind = *r.pick(&["r", "r", "r", "w", "i"]);
+            let (fab, mode, id): (u64, &str, u64) = match r.below(8) {
+                0..=2 => (0, "p", 1),
+                3 => (r.range(1, nf), "p", 1),
+                4 => (r.range(1, nf), "g", *r.pick(&GROUP_IDS)),
+                _ => (r.range(1, nf), "c", *r.pick(&[1u64, 1, 2, 112233])),
+            };
+            let timed = if r.chance(1, 2) { 1 } else { 0 };
+            // mostly one wildcard path (the shape `node_swap_safe` speaks about); sometimes several
+            let mut cl = *r.pick(&CLUSTERS);
+            let mut lf = r.below(4);
+            // aim at something the pool has
+            if r.chance(4, 5) {
+                let e = &pool[r.below(pool.len() as u64) as usize];
+                if !e.clusters.is_empty() {
+                    let c = &e.clusters[r.below(e.clusters.len() as u64) as usize];
+                    cl = c.id;
+                    let leaves = if kind == "i" { &c.cmds } else { &c.attrs };
+                    if !leaves.is_empty() {
+                        lf = leaves[r.below(leaves.len() as u64) as usize].id as u64;
+                    }
+                }
+            }
+            let one = if kind == "r" {
+                match r.below(8) {
+                    0..=3 => "*/*/*".to_string(),
+                    4 => format!("*/{}/*", cl),
+                    5 => format!("*/{}/{}", cl, lf),
+                    6 => format!("{}/*/*", r.pick(&ENDPOINTS)),
+                    _ => format!("*/*/{}", lf),
+                }
+            } else {
+                format!("*/{}/{}", cl, lf)
+            };
+            let paths = if r.chance(1, 5) {
+                out.stat("swap_multi_path", 1);
+                format!("{};{}/{}/{};{}", one, r.pick(&ENDPOINTS), cl, lf, one)
+            } else {
+                one
+            };
+            // compositions: subsets of the pool (an endpoint id keeps its shape); 1 in 6 schedules
+            // also changes the shape of an endpoint (violates the documented invariant: model-vs-code only)
+            let nn = r.range(2, 6);
+            let unstable = r.chance(1, 6);
+            let mut specs: Vec<String> = Vec::new();
+            for k in 0..nn {
+                let mut comp: Vec<GEndpoint> = pool.iter().filter(|_| r.chance(2, 3)).cloned().collect();
+                if unstable && k > 0 && !comp.is_empty() {
+                    let i = r.below(comp.len() as u64) as usize;
+                    if !comp[i].clusters.is_empty() && r.chance(1, 2) {
+                        comp[i].clusters.remove(0);
+                    } else {
+                        comp[i].clusters.push(GCluster { id: 40, fm: 0xFFFF_FFFF, attrs: vec![GLeaf { id: 0, access: Access::RV.bits(), array: false }], cmds: vec![GLeaf { id: 0, access: Access::WO.bits(), array: false }], evs: vec![] });
+                    }
+                }
+                specs.push(node_spec(&comp));
+            }
+            out.stat(if unstable { "swap_shape_changed" } else { "swap_stable" }, 1);
+            ops.push(format!("sw {} {} {} 0 {} - {} - {} {}", kind, fab, mode, id, timed, paths, specs.join(" ")));
+        }
+    }
+    // requests through the REAL InteractionModel with an instrumented handler (effect stream)
+    if r.chance(2, 3) {
+        let ne2e = r.range(1, 4);
+        for _ in 0..ne2e {
+            let kind = *r.pick(&["r", "r", "r", "w", "w", "w", "i", "i", "i", "v", "v"]);
+            let (fab, mode, id): (u64, &str, u64) = match r.below(10) {
+                0 | 1 => (0, "p", 1),
+                2 => (r.range(1, nf), "p", 1),
+                3 => (3, "c", 1),
+                _ => (r.range(1, nf), "c", *r.pick(&[1u64, 1, 2, 112233])),
+            };
+            let (treq, flag): (String, u8) = if kind == "w" || kind == "i" {
+                let t = *r.pick(&[50u64, 200, 1000]);
+                match r.below(9) {
+                    0 | 1 => ("-".into(), 0),
+                    2 => ("-".into(), 1),
+                    3 | 4 => (format!("{}:{}", t, r.below(t)), 1),
+                    5 => (format!("{}:{}", t, t + 1 + r.below(t)), 1),
+                    6 => (format!("{}:{}", t, t), 1),
+                    7 => (format!("{}:{}", t, r.below(t)), 0),
+                    _ => (format!("{}:{}", t, t - 1), 1),
+                }
+            } else {
+                ("-".into(), 0)
+            };
+            out.stat(&format!("e2e_timed_{}_{}", if treq == "-" { "none" } else { "req" }, flag), 1);
+            let mut paths: Vec<String> = Vec::new();
+            let mut emit: Vec<String> = Vec::new();
+            if kind == "v" {
+                let np = *r.pick(&[1usize, 1, 2, 3]);
+                for _ in 0..np {
+                    let mut ep: Option<u64> = Some(*r.pick(&ENDPOINTS) as u64);
+                    let mut cl: Option<u64> = Some(*r.pick(&CLUSTERS) as u64);
+                    let mut ev: Option<u64> = None;
+                    if !eps.is_empty() && r.chance(5, 6) {
+                        let e = &eps[r.below(eps.len() as u64) as usize];
+                        ep = Some(e.id as u64);
+                        if !e.clusters.is_empty() && r.chance(5, 6) {
+                            let c = &e.clusters[r.below(e.clusters.len() as u64) as usize];
+                            cl = Some(c.id as u64);
+                            let enabled: Vec<u32> = c.evs.iter().filter(|l| c.fm & (1 << (l.id % 32)) != 0).map(|l| l.id).collect();
+                            if !enabled.is_empty() {
+                                ev = Some(*r.pick(&enabled) as u64);
+                            } else if case_id % 2500 == 7 && case_id < 10000 {
+                                // a concrete path naming an absent event (known finding C06-absent-event-silent)
+                                ev = Some(9);
+                            }
+                        } else {
+                            cl = Some(99);
+                            ev = Some(r.below(3));
+                        }
+                    } else if r.chance(1, 2) {
+                        ev = Some(r.below(3));
+                    }
+                    let exists_ec = eps.iter().any(|e| Some(e.id as u64) == ep && e.clusters.iter().any(|c| Some(c.id as u64) == cl));
+                    match r.below(6) {
+                        0 => { ep = None; }
+                        1 => { ep = None; cl = None; ev = None; }
+                        2 => { ev = None; }
+                        3 => { cl = None; ev = None; }
+                        _ => {}
+                    }
+                    // never (outside the marked cases) a concrete path to an event the cluster lacks
+                    if let (Some(e), Some(c), Some(v)) = (ep, cl, ev) {
+                        let ok = eps.iter().any(|x| x.id as u64 == e && x.clusters.iter().any(|y| y.id as u64 == c && y.evs.iter().any(|l| l.id as u64 == v && y.fm & (1 << (l.id % 32)) != 0)));
+                        if exists_ec && !ok && !(case_id % 2500 == 7 && case_id < 10000) {
+                            ev = None;
+                        }
+                    }
+                    out.stat(&format!("path_v_{}{}{}", if ep.is_some() { "E" } else { "*" }, if cl.is_some() { "C" } else { "*" }, if ev.is_some() { "L" } else { "*" }), 1);
+                    paths.push(format!("{}/{}/{}", fmt_o(ep), fmt_o(cl), fmt_o(ev)));
+                }
+                let nem = r.range(0, 6);
+                for _ in 0..nem {
+                    let fabf = *r.pick(&[0u64, 0, 0, 1, 2, 3]);
+                    let mut done = false;
+                    if !eps.is_empty() && r.chance(4, 5) {
+                        let e = &eps[r.below(eps.len() as u64) as usize];
+                        if !e.clusters.is_empty() {
+                            let c = &e.clusters[r.below(e.clusters.len() as u64) as usize];
+                            if !c.evs.is_empty() {
+                                let l = &c.evs[r.below(c.evs.len() as u64) as usize];
+                                emit.push(format!("{}.{}.{}.{}", e.id, c.id, l.id, fabf));
+                                done = true;
+                            }
+                        }
+                    }
+                    if !done {
+                        emit.push(format!("{}.{}.{}.{}", r.pick(&ENDPOINTS), r.pick(&CLUSTERS), r.below(3), fabf));
+                    }
+                }
+            } else {
+                let np = *r.pick(&[1usize, 1, 2, 3, 4]);
+                for _ in 0..np {
+                    if !paths.is_empty() && kind != "i" && r.chance(1, 5) {
+                        let p = r.pick(&paths).clone();
+                        paths.push(p);
+                        continue;
+                    }
+                    let mut ep: Option<u64> = Some(*r.pick(&ENDPOINTS) as u64);
+                    let mut cl: Option<u64> = Some(*r.pick(&CLUSTERS) as u64);
+                    let mut lf: Option<u64> = Some(r.below(5));
+                    if !eps.is_empty() && r.chance(4, 5) {
+                        let e = &eps[r.below(eps.len() as u64) as usize];
+                        ep = Some(e.id as u64);
+                        if !e.clusters.is_empty() && r.chance(4, 5) {
+                            let c = &e.clusters[r.below(e.clusters.len() as u64) as usize];
+                            cl = Some(c.id as u64);
+                            let leaves = if kind == "i" { &c.cmds } else { &c.attrs };
+                            if !leaves.is_empty() && r.chance(4, 5) {
+                                lf = Some(leaves[r.below(leaves.len() as u64) as usize].id as u64);
+                            }
+                        }
+                    }
+                    let shape = if kind == "r" {
+                        match r.below(10) {
+                            0..=4 => 0,
+                            5 => 1,
+                            6 => 6,
+                            7 => 4,
+                            8 => 7,
+                            _ => r.below(8),
+                        }
+                    } else {
+                        match r.below(10) {
+                            0..=5 => 0,
+                            6..=8 => 1,
+                            _ => r.below(8),
+                        }
+                    };
+                    if shape & 1 != 0 { ep = None; }
+                    if shape & 2 != 0 { cl = None; }
+                    if shape & 4 != 0 { lf = None; }
+                    // a wildcard cluster with a concrete (non-global) attribute makes the whole read invalid: rare
+                    if kind == "r" && cl.is_none() && lf.is_some() && r.chance(9, 10) { lf = None; }
+                    out.stat(&format!("path_e2e_{}_{}{}{}", kind, if ep.is_some() { "E" } else { "*" }, if cl.is_some() { "C" } else { "*" }, if lf.is_some() { "L" } else { "*" }), 1);
+                    let p = format!("{}/{}/{}", fmt_o(ep), fmt_o(cl), fmt_o(lf));
+                    if kind == "i" && paths.contains(&p) && r.chance(19, 20) {
+                        continue;
+                    }
+                    paths.push(p);
+                }
+            }
+            let cats = if mode == "c" && r.chance(1, 4) { *r.pick(&["65538", "65539", "65537", "131074", "65537,131075"]) } else { "-" };
+            if cats != "-" { out.stat("e2e_requester_with_cats", 1); }
+            ops.push(format!(
+                "e2e {} {} {} {} {} {} {} {} {}",
+                kind, fab, mode, id, cats, treq, flag, paths.join(";"), if emit.is_empty() { "-".to_string() } else { emit.join(",") }
+            ));
+        }
     }
     ops
 }
@@ -564,13 +975,15 @@ pub fn gen(a: &Args) -> String {
     c05::with_matter(move |matter| {
         let mut r = Rng::new(seed);
         let mut out = Out::default();
-        out.buf.push_str("#rule one case = an access-control configuration (fabrics, entries, group tables, built through the real API) + generated node metadata (0..4 endpoints x 0..3 clusters x 0..4 attributes / 0..3 commands with declared and random access bits, timed-only / fabric-scoped marks, partially disabled by the feature map; 1 in 8 nodes has duplicate ids) + requests run through the real expand_read / expand_write / expand_invoke with real request TLVs: 1..4 paths (concrete, each wildcard shape, absent ids, repeats), requester in {PASE with/without fabric, CASE, Group, missing fabric}, timed flag, read filter; non-trivial = the case produced both items and statuses\n");
+        let env = e2e::new_env();
+        embassy_time::MockDriver::get().reset();
+        out.buf.push_str("#rule one case = an access-control configuration (fabrics, entries, group tables, built through the real API) + generated node metadata (0..4 endpoints x 0..3 clusters x 0..4 attributes / 0..3 commands with declared and random access bits, timed-only / fabric-scoped marks, partially disabled by the feature map; 1 in 8 nodes has duplicate ids) + requests run through the real expand_read / expand_write / expand_invoke with real request TLVs (also with the node composition replaced between the expander's calls, and end to end through the real InteractionModel with a logging handler, timed requests under virtual time, PASE sessions without fabric, event reads): 1..4 paths (concrete, each wildcard shape, absent ids, repeats), requester in {PASE with/without fabric, CASE, Group, missing fabric}, timed flag, read filter; non-trivial = the case produced both items and statuses\n");
         let n_cases: u64 = if thorough { 100000 } else { 10000 };
         for id in 1..=n_cases {
             let mut cr = r.fork();
             let nx = if thorough { cr.range(4, 24) } else { cr.range(4, 14) } as usize;
-            let ops = gen_case(&mut cr, &mut out, nx);
-            run_case(matter, &mut out, &Case { id, kind: "expand".into(), ops });
+            let ops = gen_case(&mut cr, &mut out, nx, id);
+            run_case(matter, &env, &mut out, &Case { id, kind: "expand".into(), ops });
         }
         out.finish()
     })
@@ -580,8 +993,10 @@ pub fn replay(a: &Args) -> String {
     let text = std::fs::read_to_string(a.input.as_ref().expect("--in")).expect("read input");
     c05::with_matter(move |matter| {
         let mut out = Out::default();
+        let env = e2e::new_env();
+        embassy_time::MockDriver::get().reset();
         for c in parse_cases(&text) {
-            run_case(matter, &mut out, &c);
+            run_case(matter, &env, &mut out, &c);
         }
         out.finish()
     })
